@@ -119,11 +119,29 @@ def pointer_width(rep: Report, prog: Program) -> None:
     f = prog.func(IDX, 'log_viterbi_einsum_forward')
     from ..guards import Env, walk
     cfg = cfg_of(f)
-    allowed = {'index_to_vaxis', 'ptrs', 'ptr'}
+    # roles: the index map is the dict whose entries are popped for the output indices; the pointer tensor is the second result of
+    # the library's viterbi einsum; the per-index pointer list is built by append in a loop over the index map
+    allowed = set()
+    for n in own_nodes(f.node):
+        if isinstance(n, ast.Call) and callee_last(n) == 'pop' and isinstance(n.func.value, ast.Name) and n.args and isinstance(n.args[0], ast.Name):
+            allowed.add(n.func.value.id)
+    index_maps = set(allowed)
+    for n in own_nodes(f.node):
+        if isinstance(n, ast.Assign) and isinstance(n.targets[0], ast.Tuple) and len(n.targets[0].elts) == 2 and isinstance(n.value, ast.Call) \
+                and callee_last(n.value) == 'log_viterbi_einsum_forward' and isinstance(n.targets[0].elts[1], ast.Name):
+            allowed.add(n.targets[0].elts[1].id)
+        if isinstance(n, ast.For) and isinstance(n.iter, ast.Call) and callee_last(n.iter) in ('values', 'items', 'keys') and norm(n.iter.func.value) in index_maps:
+            for x in ast.walk(n):
+                if isinstance(x, ast.Call) and callee_last(x) == 'append' and isinstance(x.func.value, ast.Name):
+                    allowed.add(x.func.value.id)
+    if not index_maps:
+        rep.error(f"{rule}: cannot identify the index map (a dict popped for the output indices) in log_viterbi_einsum_forward")
+        return
+    sources = set(allowed)
     counters = set()
     for n in own_nodes(f.node):
         if isinstance(n, ast.Assign) and len(n.targets) == 1 and isinstance(n.targets[0], ast.Name):
-            if names_in(n.value) & {'index_to_vaxis', 'ptrs', 'ptr'} and isinstance(n.value, ast.Call) and callee_last(n.value) in ('size', 'len'):
+            if names_in(n.value) & sources and isinstance(n.value, ast.Call) and callee_last(n.value) in ('size', 'len'):
                 allowed.add(n.targets[0].id); counters.add(n.targets[0].id)
     sites = 0
 
@@ -156,7 +174,12 @@ def pointer_width(rep: Report, prog: Program) -> None:
                 ok = trailing.value == 0 and guard_ok
                 rep.ob(rule, g.fq(), norm(c)[:90], g.loc(c), ok, f"literal trailing size {trailing.value!r}; under the empty-operand guard: {guard_ok}")
                 continue
-            ok = bool(names & allowed) and not (names & OUTPUT_SIDE)
+            outp = f.positional_params()[2] if len(f.positional_params()) > 2 else 'output'
+            out_side = set(OUTPUT_SIDE) | {outp}
+            for a2 in own_nodes(f.node):
+                if isinstance(a2, ast.Assign) and len(a2.targets) == 1 and isinstance(a2.targets[0], ast.Name) and outp in names_in(a2.value):
+                    out_side.add(a2.targets[0].id)
+            ok = bool(names & allowed) and not (names & out_side)
             rep.ob(rule, g.fq(), norm(c)[:90], g.loc(c), ok,
                    f"trailing size `{norm(trailing)}` is derived from the summed-out indices" if ok else
                    f"trailing size `{norm(trailing)}` is derived from {sorted(names)}: the pointer must have one entry per summed-out index, not per output axis")
